@@ -27,7 +27,7 @@ fn method_after(m: &Method, status: u16) -> Option<Method> {
 }
 
 /// Drive `spec` to its terminal state; in the redirect state try to follow, and run the followed flow to completion.
-fn drive(spec: &ExchangeSpec, s: &mut Sched, follow: Option<RedirectAuthHeaders>, st: &mut Stats) -> Result<(), String> {
+fn drive(spec: &ExchangeSpec, s: &mut Sched, follow: Option<RedirectAuthHeaders>, follow_variant: usize, st: &mut Stats) -> Result<(), String> {
     let stream = spec.stream();
     let (obs, term) = match run_exchange(spec, None, &stream, s)? {
         Outcome::Done(o, t) => (o, t),
@@ -86,18 +86,23 @@ fn drive(spec: &ExchangeSpec, s: &mut Sched, follow: Option<RedirectAuthHeaders>
                                 } else {
                                     // the followed flow is a fully usable Prepare flow: run it to completion
                                     let is_head = no_body_clause(&m, 200);
+                                    // the followed flow inherits the Expect header: it must behave like any other flow with it
+                                    // variant 0 plain; 1 body sent despite the method (Await100 first when Expect is inherited);
+                                    // 2 the server sends an interim 100 that nobody waited for (skipped once)
+                                    let despite2 = follow_variant % 3 == 1;
+                                    let late100 = follow_variant % 3 == 2 && spec.expect;
                                     let spec2 = ExchangeSpec {
                                         method: m,
                                         req_v10: spec.req_v10,
                                         uri: String::new(),
                                         req_conn: spec.req_conn,
                                         expect: spec.expect,
-                                        despite: false,
+                                        despite: despite2,
                                         req_framing: ReqFraming::Auto,
                                         extra_headers: vec![],
-                                        body: vec![],
-                                        await_mode: AwaitMode::NeverLook,
-                                        server_pre: ServerPre::Silent,
+                                        body: if despite2 { b"again".to_vec() } else { vec![] },
+                                        await_mode: if follow_variant % 2 == 0 { AwaitMode::NeverLook } else { AwaitMode::Look },
+                                        server_pre: if late100 { ServerPre::Continue(b"HTTP/1.1 100 Continue\r\n\r\n".to_vec()) } else { ServerPre::Silent },
                                         resp: RespSpec {
                                             head: RespHead::simple(200, vec![Field::new("Content-Length", "2")]),
                                             body_wire: if is_head { vec![] } else { b"ok".to_vec() },
@@ -227,7 +232,8 @@ fn exec_menu(t: &mut Tape, st: &mut Stats) -> Result<(), String> {
     let mut s = Sched::canonical();
     s.always_query = true;
     let policy = if framing % 2 == 0 { RedirectAuthHeaders::Never } else { RedirectAuthHeaders::SameHost };
-    drive(&spec, &mut s, Some(policy), st)?;
+    let variant = (framing + behaviour + expect as usize * 2) % 3;
+    drive(&spec, &mut s, Some(policy), variant, st)?;
     st.class("menu_cell_run");
     Ok(())
 }
@@ -240,12 +246,13 @@ fn exec_random(t: &mut Tape, st: &mut Stats) -> Result<(), String> {
         _ => Some(RedirectAuthHeaders::SameHost),
     };
     let premature = t.weighted(&[2, 2, 1]) as u32;
+    let variant = t.below(3);
     st.describe(|| json!({"exchange": spec_json(&spec), "follow": follow.map(|p| format!("{:?}", p)), "premature_budget": premature}));
     st.case_digest = t.digest();
     // Locations of the random generator that are followed: resolvable ones only ("/next", absolute, "../up", "?only=query")
     let mut s = Sched::from_tape(t);
     s.premature_budget = premature;
-    let r = drive(&spec, &mut s, follow, st);
+    let r = drive(&spec, &mut s, follow, variant, st);
     let moved = s.k1_moved;
     st.excluded(moved);
     r
@@ -259,7 +266,8 @@ Transfer-Encoding} x server behaviour {silent, interim 100, refusal by a bare re
 and trailer, close-delimited, none} = 37800 cells (invalid requests skipped and counted), each driven under the canonical schedule \
 with EVERY read-only accessor and permitted no-op (extra head write, headers_map, calculate_max_input, is_chunked, \
 is_on_chunk_boundary, body_mode, can_keep_await_100, ...) called at every step; in the redirect state as_new_flow is called and the \
-followed flow is itself run to completion. random 'histories': C01's exchange generator under generated schedules with 0..2 \
+followed flow is itself run to completion in one of three variants (plain; body sent despite the method, through Await100 when the \
+Expect header is inherited; an interim 100 arriving although nobody waited). random 'histories': C01's exchange generator under generated schedules with 0..2 \
 premature advance attempts placed anywhere (SendRequest, SendBody, RecvResponse, RecvBody), interleaved queries, boundary-stop \
 toggles, direct-write reports, optional follow. Oracle: no panic; every proceed() succeeds exactly when the readiness query was \
 true (premature attempts yield None and the query was false); the successor state is the one the model prescribes (body due / Expect \
